@@ -252,7 +252,12 @@ def compile_fmt(fmt):
         segs.append(Seg("lit", None, "literal", fmt[lit_start:]))
     if tot:
         return ("tot", tot)
-    return ("ok", segs)
+    labels = {}
+    for sg in segs:
+        if sg.kind != "lit" or sg.label != "literal":
+            lb = sg.label + ("+flags/width" if sg.flagged else "")
+            labels[lb] = labels.get(lb, 0) + 1
+    return ("ok", segs, tuple(labels.items()))
 
 
 def zone(v, colons):
@@ -362,6 +367,7 @@ class Checker(object):
         self.samples = []
         self.cache = {}
         self.kinds_sampled = set()
+        self.dirs = {}
 
     def count(self, name, k=1):
         c = self.counters
@@ -447,8 +453,11 @@ class Checker(object):
         out = res["v"]
         exp = "".join(parts)
         if out == exp:
-            self.count("fmt:exact-ok")
-            self.count("fmt:directives-checked", len(segs))
+            c = self.counters
+            c["fmt:exact-ok"] = c.get("fmt:exact-ok", 0) + 1
+            d = self.dirs
+            for lb, k in comp[2]:
+                d[lb] = d.get(lb, 0) + k
             return
         if ev["via"] == "string" and out == ev["x"]:
             self.violate("parse:string-not-recognised-by-date-filter",
@@ -599,6 +608,9 @@ class Checker(object):
             self.count("cmp:ok:local-order-opposite-to-chronological")
 
     def result(self):
+        for lb, k in self.dirs.items():
+            self.counters["fmt:exact-ok:" + lb] = k
+        self.counters["fmt:directives-checked"] = sum(self.dirs.values())
         return {
             "events": self.n,
             "violations": self.violations,
